@@ -518,7 +518,7 @@ def case_literal(sc, opi, res, lits):
     after = lits.values(res["values"])
     # 3 = ZeroDivisionError: a constant sub-expression divides by zero, which the specification leaves undefined
     outcome = 0 if res["outcome"] == "ok" else (1 if res["outcome"] == "SolveFailure" else
-                                                (3 if res["outcome"] == "exc:ZeroDivisionError" else 2))
+                                                (3 if res["outcome"] == "exc:ZeroDivisionError" or "Max size for array" in (res.get("err") or "") else 2))
     terms = clist([term_lit(t) for t in hard_terms(res["log"])])
     nl = lambda l: clist(["%d%%nat" % x for x in l])
     pre = [h[0] for h in res["hooks"] if h[1] == "pre_randomize"]
@@ -614,8 +614,6 @@ def py_bound_out_of_type(sc, root_cls, stmts_with_prefix, values_by_path):
         W, sg = max(wc, wo), sc_ and so
         if not repr_ok(pv(c, prefix), W, sg):
             return True
-        if so and not sg:
-            return True        # a signed operand in an unsigned comparison: its negative values are re-read as large positive
         return False
 
     for s, prefix in stmts_with_prefix:
